@@ -10,3 +10,4 @@ for s in "$@"; do
     [ "$rc" != "0" ] && grep '^VIOLATION' /tmp/sweep_${s}_$p.out | head -5 && for f in $(grep '^VIOLATION' /tmp/sweep_${s}_$p.out | head -3 | sed 's/.*replay=//; s/ .*//'); do python3 -c "import json,sys; d=json.load(open('$f')); print('   ', d['what'][:600])"; done
   done
 done
+exit 0
